@@ -87,6 +87,7 @@ func init() {
 			}
 			opts.MaxDepth = 1 + d.N(2)
 			opts.MaxTasks = 3 + d.N(6)
+			opts.DataConds = d.Bool()
 			prog := GenProgram(d, opts)
 			c := &ProcCase{Prog: prog, Buf: d.N(17), Hold: d.N(3)}
 			c.Picks = drawPicks(d, 48)
@@ -108,6 +109,7 @@ func init() {
 				nreq += n
 			}
 			o.Nontrivial = r.Switches > 0 && nreq >= 2
+			probe(o, "condition-reads-upstream-task-result", c.Prog.DataConds > 0)
 			o.Tags = c.Prog.Tags
 			o.Sample = map[string]any{"program": c.Prog.Desc, "vars": c.Prog.Vars, "buf": c.Buf, "hold": c.Hold, "requests": tg.Requests, "ends": tg.M.Ends}
 			return o
